@@ -264,6 +264,7 @@ func (node *UntrustedNode) connect() error {
 // in a goroutine.
 func (node *UntrustedNode) monitorIncoming(ctx context.Context) {
 	for !node.isStopping() {
+		verifPoint("unt.loop")
 		if err := node.check(ctx); err != nil {
 			logger.Verbose(ctx, "(%s) Check failed : %s", node.address, err.Error())
 			node.Stop(ctx)
@@ -279,6 +280,7 @@ func (node *UntrustedNode) monitorIncoming(ctx context.Context) {
 		}
 
 		// read new messages, blocking
+		verifPoint("unt.read")
 		_, msg, _, err := wire.ReadMessageN(connection, wire.ProtocolVersion,
 			wire.BitcoinNet(node.config.Net))
 		if err != nil {
